@@ -207,8 +207,8 @@ Definition ev_ok (g : gen) (ev : gev) : Prop :=
   end.
 
 (* E: everything the generation has sent so far *)
-Definition gen_inv (g : gen) (E : list msg) : Prop :=
-  exists a, a <= g_offset g /\ E = mm (between a (g_offset g) log)
+Definition gen_inv (s0 : Z) (g : gen) (E : list msg) : Prop :=
+  exists a, (0 <= s0 -> a = s0) /\ a <= g_offset g /\ E = mm (between a (g_offset g) log)
             /\ ((g_phase g = PRead \/ g_phase g = POffsets) ->
                 empty log (g_offset g) (g_conn g) /\ empty log (g_conn g) (g_offset g)).
 
@@ -239,16 +239,16 @@ Proof.
   pose proof (increasing_lb 0 log log_sorted r Hr). lia.
 Qed.
 
-Theorem gen_step_inv g ev g' outs E :
-  gen_inv g E -> ev_ok g ev -> gen_step run cfg g ev = Some (g', outs) ->
-  gen_inv g' (E ++ msgs_of outs).
+Theorem gen_step_inv s0 g ev g' outs E :
+  gen_inv s0 g E -> ev_ok g ev -> gen_step run cfg g ev = Some (g', outs) ->
+  gen_inv s0 g' (E ++ msgs_of outs).
 Proof.
-  intros (a & Hal & HE & Hhole) Hev Hstep.
+  intros (a & Hs0 & Hal & HE & Hhole) Hev Hstep.
   unfold gen_step in Hstep.
-  destruct (g_phase g) eqn:Hph; destruct ev as [|first last first2 last2|r|r]; try (injection Hstep as <- <-; cbn [msgs_of flat_map]; rewrite app_nil_r; exists a; rewrite Hph; (split; [exact Hal|split; [exact HE|exact Hhole]]); fail).
+  destruct (g_phase g) eqn:Hph; destruct ev as [|first last first2 last2|r|r]; try (injection Hstep as <- <-; cbn [msgs_of flat_map]; rewrite app_nil_r; exists a; rewrite Hph; (split; [exact Hs0|split; [exact Hal|split; [exact HE|exact Hhole]]]); fail).
   - (* PInit, GDialFail *)
     injection Hstep as <- <-. exists a. cbn [g_offset g_phase g_conn].
-    split; [exact Hal|]. split.
+    split; [exact Hs0|]. split; [exact Hal|]. split.
     + destruct (c_max_attempts cfg <=? g_attempt g); cbn; rewrite app_nil_r; exact HE.
     + intros [H|H]; discriminate H.
   - (* PInit, GInit *)
@@ -256,33 +256,33 @@ Proof.
     set (o := g_offset g) in *.
     set (o1 := if o =? FirstOffset then first else if o =? LastOffset then last
                else if o <? first then first else o) in *.
-    assert (Hanchor : exists a', a' <= o1 /\ E = mm (between a' o1 log)).
+    assert (Hanchor : exists a', (0 <= s0 -> a' = s0) /\ a' <= o1 /\ E = mm (between a' o1 log)).
     { unfold o1. destruct (o =? FirstOffset) eqn:E1.
-      - exists first. split; [lia|]. rewrite HE.
+      - exists first. split; [unfold FirstOffset in *; lia|]. split; [lia|]. rewrite HE.
         rewrite (neg_offsets_empty a o) by (unfold FirstOffset in *; lia).
         rewrite (empty_trivial log first first) by lia. reflexivity.
       - destruct (o =? LastOffset) eqn:E2.
-        + exists last. split; [lia|]. rewrite HE.
+        + exists last. split; [unfold LastOffset in *; lia|]. split; [lia|]. rewrite HE.
           rewrite (neg_offsets_empty a o) by (unfold LastOffset in *; lia).
           rewrite (empty_trivial log last last) by lia. reflexivity.
         + destruct (o <? first) eqn:E3.
-          * exists a. split; [lia|]. rewrite HE. f_equal.
+          * exists a. split; [exact Hs0|]. split; [lia|]. rewrite HE. f_equal.
             apply between_extend_below_first; [exact Hfirst|lia|lia].
-          * exists a. split; [lia|exact HE]. }
-    destruct Hanchor as (a' & Ha' & HE').
+          * exists a. split; [exact Hs0|]. split; [lia|exact HE]. }
+    destruct Hanchor as (a' & Hs0' & Ha' & HE').
     destruct (o1 =? FirstOffset) eqn:Eo1.
     + injection Hstep as <- <-. rewrite app_nil_r. exists a'. cbn [g_offset g_phase g_conn].
-      split; [exact Ha'|]. split; [exact HE'|]. intros _. split; apply empty_trivial; lia.
+      split; [exact Hs0'|]. split; [exact Ha'|]. split; [exact HE'|]. intros _. split; apply empty_trivial; lia.
     + destruct ((o1 <? first2) || (last2 <? o1)) eqn:Eoor.
       * destruct (c_oor_error cfg); injection Hstep as <- <-; exists a; cbn [g_offset g_phase g_conn];
-          (split; [exact Hal|]); (split; [cbn; rewrite app_nil_r; exact HE|]); intros [H|H]; discriminate H.
+          (split; [exact Hs0|]); (split; [exact Hal|]); (split; [cbn; rewrite app_nil_r; exact HE|]); intros [H|H]; discriminate H.
       * injection Hstep as <- <-. rewrite app_nil_r. exists a'. cbn [g_offset g_phase g_conn].
-        split; [exact Ha'|]. split; [exact HE'|]. intros _. split; apply empty_trivial; lia.
+        split; [exact Hs0'|]. split; [exact Ha'|]. split; [exact HE'|]. intros _. split; apply empty_trivial; lia.
   - (* PRead, GFetch *)
     destruct (Hhole (or_introl eq_refl)) as [H1 H2].
     destruct (read_once run g r) as [[[[outs0 e] o'] c']|] eqn:Ero; [|discriminate].
     (* what read_once guarantees *)
-    assert (Hro : exists a', a' <= o' /\ E ++ msgs_of outs0 = mm (between a' o' log)
+    assert (Hro : exists a', (0 <= s0 -> a' = s0) /\ a' <= o' /\ E ++ msgs_of outs0 = mm (between a' o' log)
                              /\ empty log o' c' /\ empty log c' o').
     { unfold read_once in Ero.
       destruct (g_desync g) eqn:Eds.
@@ -298,12 +298,12 @@ Proof.
       - injection Ero as <- <- <- <-. exists a. cbn. rewrite app_nil_r. auto.
       - injection Ero as <- <- <- <-. exists a. cbn. rewrite app_nil_r. auto.
       - injection Ero as <- <- <- <-. exists a. cbn. rewrite app_nil_r. auto. }
-    destruct Hro as (a' & Ha' & HE' & Hh1 & Hh2).
+    destruct Hro as (a' & Hs0' & Ha' & HE' & Hh1 & Hh2).
     assert (Hgen : forall ph cc att ds extra, msgs_of extra = [] ->
-              gen_inv (mkGen ph o' (if match ph with PInit => true | _ => false end then cc else c') att ds)
+              gen_inv s0 (mkGen ph o' (if match ph with PInit => true | _ => false end then cc else c') att ds)
                       (E ++ msgs_of (outs0 ++ extra))).
     { intros ph cc att ds extra Hex. exists a'. cbn [g_offset g_phase g_conn].
-      split; [exact Ha'|]. split.
+      split; [exact Hs0'|]. split; [exact Ha'|]. split.
       - rewrite msgs_of_app, Hex, app_nil_r. exact HE'.
       - destruct ph; intros [H|H]; try discriminate H; auto. }
     destruct (g_desync g).
@@ -323,20 +323,20 @@ Proof.
     destruct (Hhole (or_intror eq_refl)) as [H1 H2].
     destruct (g_desync g).
     { injection Hstep as <- <-. rewrite app_nil_r. exists a. cbn [g_offset g_phase g_conn].
-      split; [exact Hal|]. split; [exact HE|]. intros [H|H]; discriminate H. }
+      split; [exact Hs0|]. split; [exact Hal|]. split; [exact HE|]. intros [H|H]; discriminate H. }
     destruct r as [[first last]|].
     + cbn in Hev. destruct (g_offset g <? first) eqn:Elt; injection Hstep as <- <-; rewrite app_nil_r;
         exists a; cbn [g_offset g_phase g_conn].
-      * split; [lia|]. split.
+      * split; [exact Hs0|]. split; [lia|]. split.
         -- rewrite HE. f_equal. apply between_extend_below_first; [exact Hev|lia|lia].
         -- intros _. split.
            ++ destruct (Z_lt_le_dec first (g_conn g)); [|apply empty_trivial; lia].
               apply (empty_mono log (g_offset g) (g_conn g)); [exact H1|lia|lia].
            ++ destruct (Z_lt_le_dec (g_conn g) first); [|apply empty_trivial; lia].
               apply (below_first_empty first); [exact Hev|lia].
-      * split; [exact Hal|]. split; [exact HE|]. intros _. auto.
+      * split; [exact Hs0|]. split; [exact Hal|]. split; [exact HE|]. intros _. auto.
     + injection Hstep as <- <-. rewrite app_nil_r. exists a. cbn [g_offset g_phase g_conn].
-      split; [exact Hal|]. split; [exact HE|]. intros [H|H]; discriminate H.
+      split; [exact Hs0|]. split; [exact Hal|]. split; [exact HE|]. intros [H|H]; discriminate H.
 Qed.
 
 (* run a generation over a list of environment events *)
@@ -360,8 +360,8 @@ Fixpoint evs_ok (g : gen) (evs : list gev) {struct evs} : Prop :=
   | ev :: t => ev_ok g ev /\ (forall g1 o1, gen_step run cfg g ev = Some (g1, o1) -> evs_ok g1 t)
   end.
 
-Lemma gen_run_inv evs : forall g E g' outs,
-  gen_inv g E -> evs_ok g evs -> gen_run g evs = Some (g', outs) -> gen_inv g' (E ++ msgs_of outs).
+Lemma gen_run_inv s0 evs : forall g E g' outs,
+  gen_inv s0 g E -> evs_ok g evs -> gen_run g evs = Some (g', outs) -> gen_inv s0 g' (E ++ msgs_of outs).
 Proof.
   induction evs as [|ev t IH]; intros g E g' outs Hinv Hok Hrun; cbn [gen_run] in Hrun.
   - injection Hrun as <- <-. cbn. rewrite app_nil_r. exact Hinv.
@@ -371,12 +371,12 @@ Proof.
     injection Hrun as <- <-.
     rewrite msgs_of_app, app_assoc.
     apply (IH g1 (E ++ msgs_of o1) g2 o2); [|apply (Hrest g1 o1 eq_refl)|exact E2].
-    apply (gen_step_inv g ev); assumption.
+    apply (gen_step_inv s0 g ev); assumption.
 Qed.
 
-Lemma gen_start_inv o : gen_inv (gen_start o) [].
+Lemma gen_start_inv o : gen_inv o (gen_start o) [].
 Proof.
-  exists o. cbn [gen_start g_offset g_phase]. split; [lia|]. split.
+  exists o. cbn [gen_start g_offset g_phase]. split; [reflexivity|]. split; [lia|]. split.
   - rewrite (empty_trivial log o o) by lia. reflexivity.
   - intros [H|H]; discriminate H.
 Qed.
@@ -387,13 +387,26 @@ Qed.
 Theorem generation_exact o evs g' outs :
   evs_ok (gen_start o) evs -> gen_run (gen_start o) evs = Some (g', outs) ->
   exists a rest, msgs_of outs = mm (between a (g_offset g') log)
-                 /\ mm (from a log) = msgs_of outs ++ rest.
+                 /\ mm (from a log) = msgs_of outs ++ rest /\ (0 <= o -> a = o).
 Proof.
   intros Hok Hrun.
-  pose proof (gen_run_inv evs _ [] _ _ (gen_start_inv o) Hok Hrun) as (a & Hal & HE & _).
+  pose proof (gen_run_inv o evs _ [] _ _ (gen_start_inv o) Hok Hrun) as (a & Hs0 & Hal & HE & _).
   cbn [app] in HE. exists a.
   destruct (between_prefix_from 0 log a (g_offset g') log_sorted Hal) as [rest Hrest].
-  exists (mm rest). split; [exact HE|]. rewrite HE, Hrest. unfold mm. apply map_app.
+  exists (mm rest). split; [exact HE|]. split; [|exact Hs0]. rewrite HE, Hrest. unfold mm. apply map_app.
 Qed.
 
 End Generation.
+
+(* after any run of a generation within the contract: no stored record lies between the restart
+   offset (last sent + 1) and Conn.offset, in either direction *)
+Theorem generation_conn_offset run cfg log o evs g' outs :
+  increasing 0 log ->
+  evs_ok run cfg log (gen_start o) evs -> gen_run run cfg (gen_start o) evs = Some (g', outs) ->
+  g_phase g' = PRead ->
+  empty log (g_offset g') (g_conn g') /\ empty log (g_conn g') (g_offset g').
+Proof.
+  intros Hs Hok Hrun Hph.
+  pose proof (gen_run_inv run cfg log Hs o evs _ [] _ _ (gen_start_inv run log o) Hok Hrun) as (a & _ & _ & _ & Hh).
+  apply Hh. left. exact Hph.
+Qed.
